@@ -1762,3 +1762,93 @@ def restore_private_predicates(tree, missing, resolve_def, resolve_class):
     if done:
         _link(tree)
     return done
+
+
+def dataclass_constructors(tree):
+    """a @dataclass that does more than hold its fields -- fields with init=False / default_factory, a __post_init__ --
+    and has no __init__ of its own is read with the constructor the decorator generates written out: parameters for the
+    init fields, every field assigned in declaration order (argument, default or a call of its factory), then the body of
+    __post_init__.  Plain records (all fields initialised from arguments, no __post_init__) are left to the walker's own
+    reading of record constructors."""
+    done = []
+    for cls in [c for c in ast.walk(tree) if isinstance(c, ast.ClassDef)]:
+        decos = [d.func if isinstance(d, ast.Call) else d for d in cls.decorator_list]
+        if not any((isinstance(d, ast.Name) and d.id == 'dataclass') or (isinstance(d, ast.Attribute) and d.attr == 'dataclass') for d in decos):
+            continue
+        if any(isinstance(s, FUNCS) and s.name == '__init__' for s in cls.body):
+            continue
+        if cls.bases and not all(isinstance(b, ast.Name) and b.id == 'object' for b in cls.bases):
+            continue
+        post = next((s for s in cls.body if isinstance(s, ast.FunctionDef) and s.name == '__post_init__'), None)
+        fields = []
+        special = post is not None
+        ok = True
+        for s in cls.body:
+            if not (isinstance(s, ast.AnnAssign) and isinstance(s.target, ast.Name)):
+                continue
+            if isinstance(s.annotation, ast.Subscript) and isinstance(s.annotation.value, ast.Name) and s.annotation.value.id == 'ClassVar':
+                continue
+            init, default, factory = True, None, None
+            v = s.value
+            if isinstance(v, ast.Call) and ((isinstance(v.func, ast.Name) and v.func.id == 'field') or (isinstance(v.func, ast.Attribute) and v.func.attr == 'field')):
+                if v.args:
+                    ok = False
+                for kw in v.keywords:
+                    if kw.arg == 'init' and isinstance(kw.value, ast.Constant):
+                        init = bool(kw.value.value)
+                    elif kw.arg == 'default':
+                        default = kw.value
+                    elif kw.arg == 'default_factory':
+                        factory = kw.value
+                    elif kw.arg in ('repr', 'compare', 'hash', 'metadata', 'kw_only'):
+                        if kw.arg == 'kw_only':
+                            ok = False
+                    else:
+                        ok = False
+                special = special or not init or factory is not None
+            elif v is not None:
+                default = v
+            fields.append((s.target.id, init, default, factory))
+        if not ok or not special or not fields:
+            continue
+        selfname = post.args.args[0].arg if post is not None and post.args.args else 'self'
+        if post is not None and (len(post.args.args) != 1 or post.args.vararg or post.args.kwarg):
+            continue
+        params, defaults, body = [ast.arg(arg=selfname)], [], []
+        seen_default = False
+        bad_order = False
+        for name, init, default, factory in fields:
+            if init:
+                params.append(ast.arg(arg=name))
+                if default is not None or factory is not None:
+                    seen_default = True
+                    defaults.append(_clone(default) if default is not None else ast.Call(func=_clone(factory), args=[], keywords=[]))
+                elif seen_default:
+                    bad_order = True
+                body.append(ast.Assign(targets=[ast.Attribute(value=ast.Name(id=selfname, ctx=ast.Load()), attr=name, ctx=ast.Store())], value=ast.Name(id=name, ctx=ast.Load())))
+            elif factory is not None:
+                body.append(ast.Assign(targets=[ast.Attribute(value=ast.Name(id=selfname, ctx=ast.Load()), attr=name, ctx=ast.Store())],
+                                       value=ast.Call(func=_clone(factory), args=[], keywords=[])))
+            elif default is not None:
+                body.append(ast.Assign(targets=[ast.Attribute(value=ast.Name(id=selfname, ctx=ast.Load()), attr=name, ctx=ast.Store())], value=_clone(default)))
+        if bad_order:
+            continue
+        if post is not None:
+            body.extend(_clone(x) for x in post.body if not _is_doc(x))
+        init_def = ast.FunctionDef(name='__init__', args=ast.arguments(posonlyargs=[], args=params, kwonlyargs=[], kw_defaults=[], defaults=defaults),
+                                   body=body or [ast.Pass()], decorator_list=[])
+        init_def.type_params = []
+        ln = cls.lineno
+        for n in ast.walk(init_def):
+            if isinstance(n, (ast.stmt, ast.expr)) and not hasattr(n, 'lineno'):
+                n.lineno = n.end_lineno = ln
+                n.col_offset = n.end_col_offset = 0
+        init_def.lineno = init_def.end_lineno = ln
+        init_def.col_offset = init_def.end_col_offset = 0
+        pos = 1 if cls.body and _is_doc(cls.body[0]) else 0
+        cls.body.insert(pos, init_def)
+        ast.fix_missing_locations(cls)
+        done.append(cls.name)
+    if done:
+        _link(tree)
+    return done
